@@ -438,6 +438,9 @@ pub fn labels(c: &Case, r: &RunOut) -> Vec<&'static str> {
     if c.storm {
         l.push("concurrent_wakes_from_helper_threads");
     }
+    if r.world.post_panic.is_some() {
+        l.push("polled_on_after_a_caught_panic");
+    }
     if c.schedule.iter().any(|a| matches!(a, Action::Fire { thread: true, .. })) {
         l.push("wake_from_thread");
     }
